@@ -32,7 +32,7 @@ ASSUMPTIONS = ['clients other than the one calling start() begin after start() h
                'sleep, execute_once boundaries, hooks, bisect/insert gap, queue list mutators)',
                'liveness is restated as bounded progress: every due event is consumed within pending+3 cycles after the clients stop',
                'the former known findings queue-insert-preempted and stop-then-pause-deadlock are repaired (see known_findings.json); their mechanism classifiers are kept so that a regression is named precisely']
-REQUIRED_COUNTERS = ['overlapping_stop_scenarios', 'line_level_schedules', 'schedules_run', 'schedules_completed', 'distinct_interleavings', 'cycles_observed', 'events_consumed',
+REQUIRED_COUNTERS = ['bound_pair_deliveries', 'timed_schedules_checked', 'clock_moved_while_internal_event_pending', 'cycles_begun_after_pause_returned', 'overlapping_stop_scenarios', 'line_level_schedules', 'schedules_run', 'schedules_completed', 'distinct_interleavings', 'cycles_observed', 'events_consumed',
                      'pauses_observed_mid_cycle', 'stops_while_paused', 'runner_ended_by_final', 'stress_runs',
                      'client_preempted_between_bisect_and_insert', 'execute_all_schedules']
 
@@ -41,14 +41,20 @@ def plan(tier):
     return dict(cases=5000 if tier == 'quick' else 120000, shards=16, timeout=900 if tier == 'quick' else 3600)
 
 
-def chart():
+def chart(timed=False, sends=False):
+    """timed: consuming x sends a delayed internal event t (consumed by a self-loop); sends: consuming x sends the
+    external event y (for a bound peer)."""
     sc = Statechart('t')
     sc.add_state(CompoundState('root', initial='a'), None)
     sc.add_state(BasicState('a'), 'root')
     sc.add_state(BasicState('b'), 'root')
     sc.add_state(FinalState('f'), 'root')
-    sc.add_transition(Transition('a', 'b', event='x'))
-    sc.add_transition(Transition('b', 'a', event='x'))
+    act = (lambda d: "send('t', delay=%d, u=uid())" % d) if timed else (lambda d: "send('y', u=uid())") if sends else (lambda d: None)
+    sc.add_transition(Transition('a', 'b', event='x', action=act(5)))
+    sc.add_transition(Transition('b', 'a', event='x', action=act(3)))
+    if timed:
+        sc.add_transition(Transition('a', 'a', event='t'))
+        sc.add_transition(Transition('b', 'b', event='t'))
     sc.add_transition(Transition('a', 'f', event='fin'))
     sc.add_transition(Transition('b', 'f', event='fin'))
     return sc
@@ -71,7 +77,7 @@ def line_functions():
 
 def gen_scenario(rnd):
     """Client programs as data.  ops: ('queue', uid, delay) ('pause',) ('unpause',) ('idle', n) ('stop',)"""
-    kind = rnd.choice(('events', 'events', 'lifecycle', 'lifecycle', 'final', 'mixed'))
+    kind = rnd.choice(('events', 'events', 'lifecycle', 'lifecycle', 'final', 'mixed', 'timed', 'timed'))
     nclients = rnd.choice((1, 2, 2, 3)) if kind != 'lifecycle' else rnd.choice((2, 2, 3))
     uid = [0]
 
@@ -86,6 +92,14 @@ def gen_scenario(rnd):
             r = rnd.random()
             if kind == 'events':
                 ops.append(q((0, 0, 5, 5, 10)) if r < 0.8 else ('idle', rnd.randint(1, 3)))
+            elif kind == 'timed':
+                # the chart sends delayed internal events; one client moves the clock while the runner is stepping
+                if r < 0.3 and c == 0:
+                    ops.append(('clock', rnd.choice((1, 2, 3, 5))))
+                elif r < 0.85:
+                    ops.append(q((0, 0, 0, 5)))
+                else:
+                    ops.append(('idle', rnd.randint(1, 3)))
             elif kind == 'lifecycle':
                 if r < 0.3:
                     ops.append(('pause',))
@@ -121,11 +135,24 @@ def gen_scenario(rnd):
 class World:
     """One instrumented runner + interpreter."""
 
-    def __init__(self, scn, H, S=None):
-        self.H, self.S, self.scn = H, S, scn
-        it = Interpreter(chart())
+    UID = [100000]
+
+    def __init__(self, scn, H, S=None, label=''):
+        self.H, self.S, self.scn, self.label = H, S, scn, label
+
+        def uid():
+            World.UID[0] += 1
+            return World.UID[0]
+        it = Interpreter(chart(timed=scn['kind'] == 'timed', sends=scn['kind'] == 'pair'), initial_context=dict(uid=uid))
         self.it = it
         world = self
+
+        def on_meta(m):
+            if m.name == 'event sent':
+                H.append(('sent', m.event.data.get('u'), getattr(m.event, 'delay', 0)))
+            elif m.name == 'event consumed':
+                H.append(('meta-consumed', m.event.data.get('u')))
+        it.attach(on_meta)
         orig = it.execute_once
 
         def execute_once():
@@ -133,7 +160,8 @@ class World:
                 S.yield_('before execute_once')
             step = orig()
             H.append(('exec', step.event.data.get('u') if (step is not None and step.event is not None) else None, step is not None,
-                      id(step), threading.current_thread().name if S is None else S.name()))
+                      id(step), threading.current_thread().name if S is None else S.name(), it.time,
+                      step is not None and isinstance(step.event, DD.InternalEvent)))
             world.steps.append(step)
             if S is not None:
                 S.yield_('after execute_once')
@@ -170,18 +198,20 @@ class World:
             for a in ('_unpaused', '_stop', '_thread', '_run'):
                 if not hasattr(self.r, a):
                     raise Inconclusive('AsyncRunner.%s not found: anchor cannot be instrumented' % a)
-            self.r._unpaused = CEvent(S, 'unpaused', H)
-            self.r._stop = CEvent(S, 'stop', H)
-            self.proxy = ThreadProxy(S, self.r._run)
+            self.r._unpaused = CEvent(S, 'unpaused' + label, H)
+            self.r._stop = CEvent(S, 'stop' + label, H)
+            self.proxy = ThreadProxy(S, self.r._run, 'runner' + label)
             self.r._thread = self.proxy
             for a, v in list(vars(it).items()):
                 if type(v).__name__ in ('RLock', 'lock') or type(v).__module__ == '_thread':
-                    setattr(it, a, CLock(S, a, H))       # a real lock would block a managed thread behind the scheduler's back
+                    setattr(it, a, CLock(S, a + label, H))       # a real lock would block a managed thread behind the scheduler's back
             if isinstance(getattr(it, '_external_queue', None), list):
-                it._external_queue = YList(it._external_queue).bind(S, 'external', H)
+                it._external_queue = YList(it._external_queue).bind(S, 'external' + label, H)
                 self.ylist = True
             else:
                 self.ylist = False
+            if scn['kind'] in ('timed', 'pair') and isinstance(getattr(it, '_internal_queue', None), list):
+                it._internal_queue = YList(it._internal_queue).bind(S, 'internal' + label, H)
 
     def finished(self):
         return self.proxy.finished
@@ -236,6 +266,9 @@ def client_body(world, cname, ops, is_main, others_done, S):
                 call('stop')
                 r.stop()
                 ret('stop')
+            elif op[0] == 'clock':
+                it.clock.time += op[1]
+                H.append(('clock-moved', op[1]))
             elif op[0] == 'idle':
                 for _ in range(op[1]):
                     y('client idle')
@@ -271,7 +304,8 @@ def client_body(world, cname, ops, is_main, others_done, S):
                 r.wait()
                 ret('wait')
         else:
-            pending = sum(1 for h in H if h[0] == 'call' and h[2] == 'queue') - sum(1 for h in H if h[0] == 'exec' and h[1] is not None)
+            pending = (sum(1 for h in H if (h[0] == 'call' and h[2] == 'queue') or h[0] == 'sent')
+                       - sum(1 for h in H if h[0] == 'exec' and h[1] is not None))
             target = world.cycles[0] + pending + 3
             cond = lambda: world.cycles[0] >= target or (S is not None and world.finished())     # noqa: E731
             if S is not None:
@@ -346,11 +380,23 @@ def check_history(acc, scn, H, world, verdict, S, wit):
             if inflight or any(x[0] == 'call' and x[2] in ('unpause', 'stop', 'start') for x in H[i_call:i]):
                 continue
             n = 0
-            for x in H[i + 1:]:
+            for j in range(i + 1, len(H)):
+                x = H[j]
                 if x[0] == 'call' and x[2] in ('unpause', 'stop', 'start'):
                     break
                 if x[0] == 'hook' and x[1] == 'before_execute':
                     n += 1
+                    if S is not None:
+                        # "the cycle already under way": the runner had looked at the pause flag for this cycle (and found it
+                        # clear of any pause) before pause() took effect.  A cycle begun without any look at the flag since
+                        # the previous cycle ended / before_run returned was not under way.
+                        k = max((q for q in range(j) if H[q][0] == 'hook' and H[q][1] in ('before_run', 'after_execute')), default=None)
+                        looked = k is not None and any(y[0] == 'flag' and y[1].startswith('unpaused') and y[2] == 'passed'
+                                                       for y in H[k:j])
+                        acc.count('cycles_begun_after_pause_returned')
+                        if not looked:
+                            return V('cycle-not-under-way-after-pause', 'pause() had returned; the runner then began a cycle '
+                                     'without having looked at the pause flag since %s' % (H[k][1] if k is not None else 'it started'))
             acc.count('pause_windows_checked')
             if n >= 1:
                 acc.count('pauses_observed_mid_cycle')
@@ -361,7 +407,15 @@ def check_history(acc, scn, H, world, verdict, S, wit):
     for h in H:
         if h[0] == 'call' and h[2] == 'queue':
             queued[h[3]] = (h[1], h[4])          # uid -> (client, delay)
+    for h in H:
+        if h[0] == 'sent':
+            queued[h[1]] = ('chart', h[2])
     consumed = [h[1] for h in execs if h[1] is not None]
+    announced = [h[1] for h in H if h[0] == 'meta-consumed']
+    if verdict == 'done' and announced != consumed:
+        return V('consumed-event-differs-from-step-event', "'event consumed' named the events %r, the macro steps handed back "
+                 'processed %r' % (announced[-6:], consumed[-6:]))
+    timed = scn['kind'] == 'timed'
     from collections import Counter
     cnt = Counter(consumed)
     dup = [u for u, c in cnt.items() if c > 1]
@@ -386,7 +440,23 @@ def check_history(acc, scn, H, world, verdict, S, wit):
             return V('client-fifo', 'client %s queued %r (delay %r) in that order; consumed in order %r' %
                      (c, us, d, sorted(got, key=lambda u: pos[u])))
     drain_i = next((i for i, h in enumerate(H) if h[0] == 'clock'), None)
-    if drain_i is not None:
+    if timed:
+        # the clock moves: an event queued with delay d after a step that began at time T is due at T + d or later
+        last_t = 0
+        floor = {}
+        for h in H:
+            if h[0] == 'exec':
+                last_t = h[5]
+                u = h[1]
+                if u is not None and u in floor and h[5] < floor[u]:
+                    return V('consumed-before-due', 'event %r was queued with delay %r when the interpreter time was >= %r, and '
+                             'was consumed by a step at time %r' % (u, queued[u][1], floor[u] - queued[u][1], h[5]))
+            elif h[0] == 'call' and h[2] == 'queue':
+                floor[h[3]] = last_t + h[4]
+        acc.count('timed_schedules_checked')
+        if any(h[0] == 'clock-moved' for h in H[:drain_i or 0]) and any(h[0] == 'sent' for h in H[:drain_i or 0]):
+            acc.count('clock_moved_while_internal_event_pending')
+    if drain_i is not None and not timed:
         before_drain = [h[1] for h in H[:drain_i] if h[0] == 'exec' and h[1] is not None]
         early = [u for u in before_drain if queued[u][1] > 0]
         if early:
@@ -409,7 +479,8 @@ def check_history(acc, scn, H, world, verdict, S, wit):
         acc.count('stress_progress_wait_timed_out')
         stopped_early = True
     if verdict == 'done' and not scn['final'] and drain_end is not None and not stopped_early:
-        missing = [u for u in queued if u not in cnt]
+        sent_in_drain = {h[1] for h in H[drain_i or 0:] if h[0] == 'sent'}     # (sent at time BIG with a delay: not due yet)
+        missing = [u for u in queued if u not in cnt and u not in sent_in_drain]
         if missing:
             return V('event-lost-or-starved', 'events %r were queued and due, the runner cycled %d times afterwards, they were '
                      'never consumed' % (missing[:6], world.cycles[0]))
@@ -458,9 +529,131 @@ def classify_deadlock(H, S, world):
     return None
 
 
+def pair_case(acc, rnd):
+    """Two interpreters bound to each other (i1.bind(i2), i2.bind(i1)), each run by its own AsyncRunner: for each of them
+    the other runner's thread is a client thread calling queue().  Checked: no logical deadlock, both stop() return, every
+    step reported, everything one chart sends is consumed exactly once and in order by the other."""
+    strategy = rnd.choice(('random', 'random', 'sticky', 'pct'))
+    S = Sched(rnd, strategy)
+    if rnd.random() < 0.4 and LINES.install(line_functions()):
+        S.line_mode = True
+        LINES.current = S
+    scn = dict(kind='pair', progs=[], final=False, execute_all=rnd.random() < 0.3, pre_queued=[], interval=0.0)
+    Hs = {'1': [], '2': []}
+    Hc = []
+    old_time, old_bisect = RR.time, getattr(DD, 'bisect', None)
+    RR.time = TimeShim(S)
+    if old_bisect is not None:
+        DD.bisect = BisectShim(S, Hc)
+    try:
+        W = {k: World(scn, Hs[k], S, label=k) for k in ('1', '2')}
+        W['1'].it.bind(W['2'].it)
+        W['2'].it.bind(W['1'].it)
+        nq = {k: rnd.randint(1, 5) for k in W}
+        uid = [0]
+        started = [False]
+
+        def client(main):
+            def body():
+                if main:
+                    for k in ('1', '2'):
+                        W[k].r.start()
+                    started[0] = True
+                else:
+                    S.yield_('await start', blocked_on=lambda: started[0])
+                todo = [k for k in W for _ in range(nq[k] if main else rnd.randint(0, 2))]
+                rnd.shuffle(todo)
+                for k in todo:
+                    uid[0] += 1
+                    Hc.append(('queue', k, uid[0]))
+                    W[k].it.queue(Event('x', u=uid[0]))
+                    S.yield_('client between ops')
+                if not main:
+                    done2[0] = True
+                    return
+                S.yield_('await other client', blocked_on=lambda: done2[0])
+                # bounded progress, in two rounds: after 2n+4 further cycles of each runner every x queued so far has been
+                # consumed (hence every y sent); after 2n+4 more, every y has been consumed by the peer
+                for _ in range(2):
+                    target = {k: W[k].cycles[0] + 2 * uid[0] + 4 for k in W}
+                    S.yield_('await cycles', blocked_on=lambda: all(W[k].cycles[0] >= target[k] or W[k].finished() for k in W))
+                for k in ('1', '2'):
+                    Hc.append(('call-stop', k))
+                    W[k].r.stop()
+                    Hc.append(('ret-stop', k))
+            return body
+        two = rnd.random() < 0.5
+        done2 = [not two]
+        S.spawn('c0', client(True))
+        if two:
+            S.spawn('c1', client(False))
+        verdict = S.run(max_switches=40000 if S.line_mode else 10000)
+    finally:
+        LINES.current = None
+        RR.time = old_time
+        if old_bisect is not None:
+            DD.bisect = old_bisect
+    acc.count('schedules_run')
+    acc.count('bound_pair_schedules')
+    wit = dict(scenario='two runners on two interpreters bound to each other', strategy=strategy, verdict=verdict,
+               history1=[list(map(str, h)) for h in Hs['1']][-60:], history2=[list(map(str, h)) for h in Hs['2']][-60:],
+               clients=[list(map(str, h)) for h in Hc][-40:], interleaving=[('%s:%s' % t) for t in S.trace][-150:])
+    for n, e in S.errors:
+        acc.violation('C20:exception-in-thread', 'thread %s died with %s: %s' % (n, type(e).__name__, str(e)[:200]), wit)
+        return
+    if verdict == 'watchdog':
+        acc.note_inconclusive('schedule watchdog fired (a thread blocked outside the scheduler)')
+        return
+    if verdict == 'switch-limit':
+        acc.count('schedules_cut_at_switch_limit')
+        return
+    if verdict == 'deadlock':
+        wit['deadlock'] = S.deadlock
+        acc.violation('C20:deadlock', 'two runners on interpreters bound to each other: logical deadlock, no runnable thread, '
+                      'blocked at %r' % (S.deadlock,), wit)
+        return
+    acc.count('schedules_completed')
+    for k, o in (('1', '2'), ('2', '1')):
+        H = Hs[k]
+        reported = [i for h in H if h[0] == 'hook' and h[1] == 'after_execute' for i in h[2]]
+        produced = [h[3] for h in H if h[0] == 'exec' and h[2]]
+        if reported != produced:
+            acc.violation('C20:step-unreported-or-misreported', 'runner %s: execute_once produced %d macro steps, after_execute '
+                          'received %d' % (k, len(produced), len(reported)), wit)
+            return
+        sent = [h[1] for h in H if h[0] == 'sent']
+        got = [h[1] for h in Hs[o] if h[0] == 'exec' and h[1] is not None and h[1] > 100000 and not h[6]]
+        own = [h[1] for h in H if h[0] == 'exec' and h[1] is not None and h[6]]
+        if sent != own:
+            acc.violation('C20:event-lost-or-starved' if set(own) < set(sent) else 'C20:internal-delivery', 'interpreter %s sent %r, '
+                          'and consumed %r as internal events' % (k, sent, own), wit)
+            return
+        if sent != got:
+            acc.violation('C20:event-lost-or-starved' if set(got) < set(sent) else 'C20:bound-delivery', 'interpreter %s sent %r to '
+                          'its bound peer, whose runner consumed %r' % (k, sent, got), wit)
+            return
+        xs = [h[2] for h in Hc if h[0] == 'queue' and h[1] == k]
+        gx = [h[1] for h in H if h[0] == 'exec' and h[1] is not None and h[1] <= 100000]
+        if sorted(xs) != sorted(gx):
+            acc.violation('C20:event-lost-or-starved' if len(gx) < len(xs) else 'C20:event-consumed-twice', 'clients queued %r to '
+                          'interpreter %s, its runner consumed %r' % (xs, k, gx), wit)
+            return
+        names = [h[1] for h in H if h[0] == 'hook']
+        if names.count('before_run') != 1 or names.count('after_run') != 1 or names[-1] != 'after_run':
+            acc.violation('C20:lifecycle', 'runner %s: hooks %r ... %r' % (k, names[:2], names[-2:]), wit)
+            return
+        acc.count('events_consumed', len(got) + len(gx))
+        acc.count('cycles_observed', W[k].cycles[0])
+    acc.count('bound_pair_deliveries', sum(1 for k in Hs for h in Hs[k] if h[0] == 'sent'))
+    acc.klass('interleavings', S.interleaving_digest())
+    acc.count('distinct_interleavings')
+
+
 def run_case(acc, rnd, tier, case):
     if case % 12 == 11:
         return stress_case(acc, rnd, tier)
+    if case % 12 == 5:
+        return pair_case(acc, rnd)
     scn = gen_scenario(rnd)
     strategy = rnd.choice(('random', 'random', 'sticky', 'pct'))
     S = Sched(rnd, strategy)
